@@ -117,13 +117,14 @@ const manyStarts = 99
 func isStartLeaf(v ssa.Value) bool {
 	switch x := v.(type) {
 	case *ssa.UnOp:
+		// the start field of a filesystem object (a fragment entry or a journal also has a field called start)
 		if x.Op == token.MUL {
-			if _, f, _, ok := fieldOfAddr(x.X); ok && f.Name() == "start" {
+			if n, f, _, ok := fieldOfAddr(x.X); ok && f.Name() == "start" && n != nil && n.Obj().Name() == "FileSystem" {
 				return true
 			}
 		}
 	case *ssa.Field:
-		if _, f, _, ok := fieldOfAddr(x); ok && f.Name() == "start" {
+		if n, f, _, ok := fieldOfAddr(x); ok && f.Name() == "start" && n != nil && n.Obj().Name() == "FileSystem" {
 			return true
 		}
 	case *ssa.Parameter:
